@@ -70,7 +70,82 @@ def compatible(*asgs):
             if k in merged and merged[k] != v:
                 return None
             merged[k] = v
+    if not int_consistent(merged):
+        return None
     return merged
+
+
+_CONS_CACHE = {}
+_PRED = {"eq", "ne", "sgt", "sge", "slt", "sle"}
+
+
+def int_consistent(asg):
+    """are the integer comparison atoms of a truth assignment jointly satisfiable?  The atoms compare pure terms (equal terms denote equal values) and
+    constants; every atom with its truth value is a difference constraint x - y <= k (or a disequality).  A negative cycle (Floyd-Warshall over the
+    handful of terms) or a disequality between terms forced equal makes the assignment infeasible: such a combination of paths cannot occur and is not a
+    counterexample.  Exact for conjunctions of difference constraints over the integers; anything else is left alone (treated as satisfiable)."""
+    cons = []
+    for a, v in asg.items():
+        if isinstance(a, tuple) and len(a) == 4 and a[0] == "cmp" and a[1] in _PRED:
+            cons.append((a[1], a[2], a[3], bool(v)))
+    if len(cons) < 2:
+        return True
+    key = frozenset((p, repr(x), repr(y), v) for p, x, y, v in cons)
+    if key in _CONS_CACHE:
+        return _CONS_CACHE[key]
+    idx = {"#zero": 0}
+
+    def node(t):
+        if isinstance(t, tuple) and len(t) == 2 and t[0] == "c" and isinstance(t[1], int):
+            return 0, t[1]
+        r = repr(t)
+        if r not in idx:
+            idx[r] = len(idx)
+        return idx[r], 0
+    le = []          # (u, v, k): value(u) - value(v) <= k
+    ne = []
+    for p, x, y, v in cons:
+        (u, cu), (w, cw) = node(x), node(y)
+        # x = val(u) + cu, y = val(w) + cw
+        if not v:
+            p = {"eq": "ne", "ne": "eq", "sgt": "sle", "sge": "slt", "slt": "sge", "sle": "sgt"}[p]
+        d = cw - cu      # x - y <= k  <=>  val(u) - val(w) <= k + cw - cu
+        if p == "eq":
+            le.append((u, w, d))
+            le.append((w, u, -d))
+        elif p == "ne":
+            ne.append((u, w, d))
+        elif p == "sle":
+            le.append((u, w, d))
+        elif p == "slt":
+            le.append((u, w, d - 1))
+        elif p == "sge":
+            le.append((w, u, -d))
+        elif p == "sgt":
+            le.append((w, u, -d - 1))
+    n = len(idx)
+    INF = float("inf")
+    dist = [[0 if i == j else INF for j in range(n)] for i in range(n)]
+    for u, w, k in le:
+        if k < dist[u][w]:
+            dist[u][w] = k
+    for m in range(n):
+        for i in range(n):
+            if dist[i][m] == INF:
+                continue
+            for j in range(n):
+                if dist[i][m] + dist[m][j] < dist[i][j]:
+                    dist[i][j] = dist[i][m] + dist[m][j]
+    ok = all(dist[i][i] >= 0 for i in range(n))
+    if ok:
+        for u, w, d in ne:        # val(u) - val(w) != d
+            if u == w:
+                if d == 0:
+                    ok = False
+            elif dist[u][w] == d and dist[w][u] == -d:
+                ok = False
+    _CONS_CACHE[key] = ok
+    return ok
 
 
 def check_relation(trees, rel):
